@@ -228,7 +228,7 @@ CheckReturn(P, T, sm, s, ln) ==
               [] OTHER -> {})
       \cup
       (* schedule independence: every execution of this program gave run r the same outcome so far *)
-      (IF \E h \in hist : h[1] = ln.r /\ (h[2] # kind \/ (kind = "value" /\ h[3] # v)
+      (IF ~T.faulty /\ \E h \in hist : h[1] = ln.r /\ (h[2] # kind \/ (kind = "value" /\ h[3] # v)
                                          \/ (kind = "error" /\ ~T.amb /\ sr[1] = "F" /\ Cardinality(sr[2]) = 1 /\ h[3] # v))
        THEN {"C01.det"} ELSE {})
       \cup
@@ -347,7 +347,7 @@ Consume ==
            /\ g' = IF ln.e = "Snap" /\ g.snap = <<>>
                    THEN [g EXCEPT !.snap = [graph |-> ln.graph, classes |-> ln.classes]]
                    ELSE g
-           /\ hist' = IF ln.e = "RunReturn" /\ ~st[ln.r].cancelled
+           /\ hist' = IF ln.e = "RunReturn" /\ ~st[ln.r].cancelled /\ ~T.faulty
                       THEN hist \cup {<<ln.r, ln.kind, ln.v>>} ELSE hist
     /\ l' = l + 1
     /\ UNCHANGED <<t, sem, out, done>>
